@@ -80,7 +80,7 @@ def finalize(tier, merged):
 def plan(tier, seed):
     b = []
     if tier == "quick":
-        nhist_batches, per, nsim_batches, sper, ndir = 30, 300, 24, 2, 2
+        nhist_batches, per, nsim_batches, sper, ndir = 40, 400, 36, 2, 2
     else:
         nhist_batches, per, nsim_batches, sper, ndir = 400, 1000, 1000, 3, 40
     # interleave so that a budget cut-off loses both kinds evenly
